@@ -433,9 +433,12 @@ def slice_(ip, b, lo, hi, step, st, node=None):
             pass
     d = '%s[%s:%s]' % (b.desc(), '' if cv(lo) is None else lo.desc(), '' if cv(hi) is None else hi.desc())
     if isinstance(b, Obj) and st.heap[b.oid].kind == 'list':
-        o = st.new_obj('list', hint='list')
-        st.heap[o.oid].open = True
-        return o
+        h = st.heap[b.oid]
+        if not h.open and all(isinstance(x, Const) for x in (lo, hi, step)):
+            o = st.new_obj('list', hint='list')
+            st.heap[o.oid].items = h.items[lo.value:hi.value:step.value]
+            return o
+        return SliceV(d, 'list', b, lo, hi)
     kind = 'bytes' if is_bytes(b) else getattr(b, 'kind', None)
     return SliceV(d, kind, b, lo, hi)
 
@@ -480,7 +483,11 @@ def iter_items(ip, v, st):
 # ---------------------------------------------------------------------- calls
 def ext_name(fv):
     if isinstance(fv, ModV) and isinstance(fv.mod, External):
-        return fv.mod.dotted
+        d = fv.mod.dotted
+        for pre in ('builtins.', '__builtin__.', 'six.moves.', 'past.builtins.'):
+            if d.startswith(pre):
+                return d[len(pre):]
+        return d
     if isinstance(fv, Opaque) and fv.d.startswith('builtin:'):
         return fv.d[8:]
     return None
@@ -546,6 +553,11 @@ def container_call(ip, o, meth, args, kwargs, st, line):
             else:
                 h.items.extend(it)
             return [('val', Const(None), st)]
+        if meth == 'reverse' and not args and not h.open:
+            h.items.reverse()
+            return [('val', Const(None), st)]
+        if meth in ('index', 'count', 'copy'):
+            return [('val', Opaque('%s.%s()' % (o.oid, meth)), st)]
         h.open = True
         return [('val', Opaque('%s.%s()' % (o.oid, meth)), st)]
     if meth == 'get' and args and isinstance(args[0], Const):
